@@ -108,6 +108,15 @@ def build(sd, idx):
     sseed = r.choice([0, 0, 1, 2 ** 31 - 1, 2 ** 32 - 1]) if r.random() < 0.2 else r.randrange(2 ** 31)   # 0 is a valid explicit seed
     script = st.RDScript(system, t_sample=[0, 1], time_step=0.1, sampling_policy="on_t_sample", rng_seed=simhelp.seed_form(r, sseed),
                          init_state_processing=mode)
+    if r.random() < 0.2:
+        # the same script read from its dictionary form; a mode left at the documented default ("auto") is left OUT of the
+        # dictionary, as a hand-written file would: omitted and spelled out mean the same
+        d_ = st.rdscript_to_dict(script)
+        if mode == "auto":
+            for k_ in [k_ for k_ in d_ if "init_state" in k_]:
+                d_.pop(k_)
+        script = st.rdscript_from_dict(d_)
+        system = script.system
     # the real-valued amounts as the engine receives them (molecules), cross-checked against the description
     recv = [float(x) for x in system.state.convert("molecule").value]
     if script.rng_seed != sseed:
